@@ -1,13 +1,20 @@
 import Drivers.Proto
 import St4sd.Model.Loop
 import St4sd.Model.LoopMulti
+import St4sd.Model.LoopDisk
 /-! Model driver for property C05 (DoWhile unrolling).
 
 Request `{"op":"runm","num":bool,"docs":[doc…],"out":[comp…],"ops":[["adv",i] | ["read"] …],"sparse":bool?}` →
-`{"steps":[snapshot_0 … snapshot_n]}`: snapshot_0 describes the model workflow as loaded, snapshot_j the workflow
+`{"steps":[snapshot_0 … snapshot_n],"disk":[…]}`: snapshot_0 describes the model workflow as loaded, snapshot_j the workflow
 after the first `j` operations (`Loop.runOps`); with `sparse` only snapshot_0 and snapshot_n.  `freshEdges` of a
 snapshot are the edges of ONE graph construction over its components (`Loop.edgesOfM`: what a reload of the stored
 instance builds), `edges` those accumulated by the iterations.
+
+An operation `["files",[{"stage":s,"name":n,"states":[st_0 … st_k]} …]]` is a read (`Op.read`); `st_j` is what is on disk
+for instance `j` of placeholder `(s,n)`: a string = the file is there with that content, `null` = the working
+directory is there without the file, `false` = no working directory.  For every such operation `disk` holds
+`{"at":j,"placeholders":[answers]}` — the resolution of `:loopoutput`, `:output` and the staging of `:loopref` against
+that state in the workflow after `j` operations (`Model/LoopDisk.lean`).
 
 Request `{"op":"run","num":bool,"k":n,"doc":{…},"out":[comp…]}` (one document, `Loop.run`) →
 `{"steps":[snapshot_0 … snapshot_k]}`. -/
@@ -91,6 +98,7 @@ def parseOp (j : Json) : Except String Op := do
     match a.toList with
     | [Json.str "adv", i] => return Op.advance (← i.getNat?)
     | Json.str "read" :: _ => return Op.read
+    | Json.str "files" :: _ => return Op.read
     | _ => throw "bad op"
   | _ => throw "bad op"
 
@@ -98,6 +106,50 @@ def parseOp (j : Json) : Except String Op := do
 def runOpsAll (ds : List Doc) (w : Wf) : List Op → List Wf → List Wf
   | [], acc => w :: acc
   | o :: ops, acc => runOpsAll ds (applyOp ds o w) ops (w :: acc)
+
+/-- one placeholder of a `files` operation: id and the state of the disk per iteration number -/
+def parseFiles (j : Json) : Except String (CId × List FileState) := do
+  let sts ← (← getArr j "states").mapM fun s =>
+    match s with
+    | Json.str v => pure (FileState.value v.toList)
+    | Json.null => pure FileState.noFile
+    | Json.bool false => pure FileState.noDir
+    | _ => throw "bad file state"
+  return (((← getNat j "stage"), (← getChars j "name")), sts)
+
+def diskOf (p : CId) (sts : List FileState) : Disk := fun x =>
+  if x.1 == p.1 && isLooped x.2 && baseName x.2 == p.2 then (sts[iterNum x.2]?).getD .noDir else .noDir
+
+def jexc {ε α : Type} (fe : ε → Json) (fa : α → Json) : Except ε α → Json
+  | .ok a => jobj [("ok", fa a)]
+  | .error e => jobj [("err", fe e)]
+
+def diskAnswers (num : Bool) (ds : List Doc) (cs : List Comp) (p : CId) (sts : List FileState) : Json :=
+  let disk := diskOf p sts
+  jobj [
+    ("id", jid p),
+    ("order", jarr ((loopRefOrderM num ds cs p).map jid)),
+    ("latest", jopt jid (resolveProducerM num ds cs p)),
+    ("loopoutput", jexc (fun nf => jarr (nf.map jid)) (fun vs => jarr (vs.map jchars)) (loopOutputM num ds cs p disk)),
+    ("output", jexc (fun e : Option CId => jarr (e.toList.map jid)) jchars (resolveOutputM num ds cs p disk)),
+    ("stageLooprefDir", jexc (fun nf => jarr (nf.map jid)) (fun r => jarr (r.map jid))
+        (stageLoopRefM num ds cs p fun x => (disk x).hasDir)),
+    ("stageLooprefFile", jexc (fun nf => jarr (nf.map jid)) (fun r => jarr (r.map jid))
+        (stageLoopRefM num ds cs p fun x => (disk x).content?.isSome)),
+    ("argLoopoutput", match argLoopOutputM num ds cs p disk with
+        | .full vs => jobj [("full", jarr (vs.map jchars))]
+        | .blank => jstr "blank"
+        | .inconsistent => jstr "inconsistent"),
+    ("argOutput", jchars (argOutputM num ds cs p disk))]
+
+/-- the `files` operations among the raw operations with the number of operations applied after them -/
+def filesOps : List Json → Nat → List (Nat × Json)
+  | [], _ => []
+  | Json.arr a :: ops, n =>
+    match a.toList with
+    | Json.str "files" :: spec :: _ => (n + 1, spec) :: filesOps ops (n + 1)
+    | _ => filesOps ops (n + 1)
+  | _ :: ops, n => filesOps ops (n + 1)
 
 def handle (j : Json) : Except String Json := do
   let op ← getStr j "op"
@@ -115,7 +167,13 @@ def handle (j : Json) : Except String Json := do
     let shown := if sparse then (match all, all.getLast? with
       | w0 :: _ :: _, some wn => [w0, wn]
       | _, _ => all) else all
-    return jobj [("steps", jarr (shown.map (snapshotM num ds)))]
+    let disk ← (filesOps (← getArr j "ops") 0).mapM fun (n, spec) => do
+      let w := (all[n]?).getD (initM ds out)
+      let phs ← match spec with
+        | Json.arr a => a.toList.mapM parseFiles
+        | _ => throw "bad files operation"
+      return jobj [("at", jnat n), ("placeholders", jarr (phs.map fun q => diskAnswers num ds w.comps q.1 q.2))]
+    return jobj [("steps", jarr (shown.map (snapshotM num ds))), ("disk", jarr disk)]
   | "run" =>
     let num ← getBool j "num"
     let k ← getNat j "k"
